@@ -23,6 +23,23 @@ EdgesOK(t) ==
        /\ a \in DOMAIN uc /\ b \in DOMAIN uc /\ a < b
        /\ Dist2N(t.gram, uc[a].p, [c \in Idx |-> uc[b].p[c] + t.n * cell[c]]) <= Lo(t.thr, uc[a].z, uc[b].z)
 
+(* step-level binding (CHMPY_VERIF hook in unit_cell_molecules): one event per BFS tree edge <<root, i, j, shift_j>>
+   (unit-cell atom indices, 1-based).  Each event must be the Visit action of MC_Molecules in three dimensions:
+   i already visited (root or an earlier j of the same root), j new, and
+   shift_j = shift_i + cell(i,j) if i < j, shift_i - cell(j,i) if j < i, with cell taken from the connectivity edges. *)
+EdgeCell(t, a, b) == (CHOOSE e \in SeqToSet(t.edges) : e[1] = a /\ e[2] = b)[3]
+HasEdge(t, a, b) == \E e \in SeqToSet(t.edges) : e[1] = a /\ e[2] = b
+ShiftOf(t, k, x) == IF x = t.bfs[k].root THEN <<0, 0, 0>>
+                    ELSE t.bfs[CHOOSE m \in 1..(k-1) : t.bfs[m].root = t.bfs[k].root /\ t.bfs[m].j = x].shift
+BfsOK(t) ==
+  \A k \in DOMAIN t.bfs :
+    LET ev == t.bfs[k]
+        seen == {ev.root} \cup {t.bfs[m].j : m \in {m \in 1..(k-1) : t.bfs[m].root = ev.root}}
+    IN /\ ev.i \in seen /\ ev.j \notin seen
+       /\ IF ev.i < ev.j
+          THEN HasEdge(t, ev.i, ev.j) /\ ev.shift = [c \in Idx |-> ShiftOf(t, k, ev.i)[c] + EdgeCell(t, ev.i, ev.j)[c]]
+          ELSE HasEdge(t, ev.j, ev.i) /\ ev.shift = [c \in Idx |-> ShiftOf(t, k, ev.i)[c] - EdgeCell(t, ev.j, ev.i)[c]]
+
 Verdict(t) ==
   LET N == t.n
       tab == ImgTable(t.ops, t.asym, N)
@@ -55,6 +72,8 @@ Verdict(t) ==
   IF ~(\A i \in DOMAIN us : /\ \E m \in DOMAIN t.mols : AsymSet(us[i].atoms) = SeqToSet(t.mols[m])
                             /\ WholeImage(t.ops, t.asym, t.mols, tab, us[i].atoms, N)) THEN "REJECT UniqueWhole" ELSE
   IF ~(\A i \in DOMAIN ms : ms[i].idx \in 1..Len(us) /\ AsymSet(us[ms[i].idx].atoms) = AsymSet(ms[i].atoms)) THEN "REJECT ImageLabel" ELSE
+  IF ~BfsOK(t) THEN "ACCEPT drift=BfsSteps" ELSE
+  IF Len(t.bfs) # Len(t.ucpts) - Len(ms) THEN "ACCEPT note=bfs-events-incomplete" ELSE
   "ACCEPT"
 
 Ids(b) == {i \in 1..Len(Traces) : i % NBlocks = b - 1}
